@@ -588,6 +588,17 @@ class Repo:
                     return a is not b
             except Exception as ex:
                 raise NotConst(str(ex))
+        if isinstance(expr, ast.BoolOp):
+            vals = [f(v) for v in expr.values]
+            if isinstance(expr.op, ast.And):
+                out = True
+                for v in vals:
+                    out = out and v
+                return out
+            out = False
+            for v in vals:
+                out = out or v
+            return out
         if isinstance(expr, ast.Tuple):
             return tuple(f(e) for e in expr.elts)
         if isinstance(expr, ast.List):
